@@ -54,6 +54,9 @@ def worker(job):
                 part.violation('monitor', f'{backend}: {e}', case, signature='shadow')
             part.case(key=backend + repr(ext), nontrivial=bool(nt), sample=dict(backend=backend, nsess=nsess, program=[' '.join(map(str, o)) for o in ext[:10]]))
             part.stat('backend:' + backend)
+    for k in range(max(20, ncases)):
+        with guarded(part, 'C01 publish order', dict(scenario='publish-order', seed=seed * 1000 + k)):
+            asyncio.run(publish_order(part, seed * 1000 + k))
     l1_sync(part, random.Random(seed + 5), ncases * 3)
     return part.result()
 
@@ -160,6 +163,124 @@ CORPUS = [
 ]
 
 
+async def publish_order(part, seed):
+    """commands of several connections interleaved at the backend's lock boundaries (a park before every acquisition and after every release of a write lock - the
+    granularity of a lock whose release can yield): a watching client that applies EXISTS / EXPUNGE in order and learns UIDs with FETCH n (UID) never sees a
+    sequence number change its UID, the same UID at two numbers, or UIDs out of order"""
+    import re
+    from pymap.imap import IMAPServer
+    from .common import wire, backends
+    from .common.sched import Sched, ISubsystem
+    r = random.Random(seed)
+    s = Sched()
+    s.enabled = False
+    be, config = await backends.make_dict(users=[('u', 'p', ())], bad_command_limit=None, subsystem=ISubsystem(s, exit_points=True))
+    srv = IMAPServer(be.login, config)
+    nw = r.choice([2, 2, 3])
+    writers = [wire.Client(srv, fd=10 + i, name=f'w{i}') for i in range(nw)]
+    c = wire.Client(srv, fd=30, name='c')
+    for x in writers + [c]:
+        await x.start()
+        await x.send(b'a LOGIN u p\r\n')
+    await c.send(b'a CREATE other\r\n')
+    serial = 0
+
+    def msg():
+        nonlocal serial
+        serial += 1
+        return b'Subject: m%d\r\n\r\nx\r\n' % serial
+    for _ in range(r.randint(1, 4)):
+        m_ = msg()
+        await c.send(b'a APPEND %s {%d+}\r\n' % (r.choice([b'INBOX', b'other', b'INBOX']), len(m_)) + m_ + b'\r\n')
+    for w in writers:
+        await w.send(b'a SELECT %s\r\n' % r.choice([b'INBOX', b'other']))
+    log = []
+    case = dict(scenario='publish-order', seed=seed, log=log)
+    view = []
+
+    def apply(raw, what):
+        for line in raw.split(b'\r\n'):
+            mt = re.match(rb'\* (\d+) (EXISTS|EXPUNGE|FETCH)(.*)', line)
+            if not mt:
+                continue
+            n, kind = int(mt.group(1)), mt.group(2)
+            if kind == b'EXISTS':
+                if n < len(view):
+                    return f'{what}: EXISTS {n} with {len(view)} messages in view'
+                view.extend([None] * (n - len(view)))
+            elif kind == b'EXPUNGE':
+                if not 1 <= n <= len(view):
+                    return f'{what}: EXPUNGE {n} with {len(view)} messages in view'
+                del view[n - 1]
+            else:
+                mu = re.search(rb'UID (\d+)', mt.group(3))
+                if not mu:
+                    continue
+                u = int(mu.group(1))
+                if not 1 <= n <= len(view):
+                    return f'{what}: FETCH {n} with {len(view)} messages in view'
+                if view[n - 1] not in (None, u):
+                    return f'{what}: message {n} was UID {view[n - 1]} and is now UID {u}, with no EXPUNGE in between'
+                if u in view and view.index(u) != n - 1:
+                    return f'{what}: UID {u} is message {n} and message {view.index(u) + 1} at once'
+                view[n - 1] = u
+                known = [x for x in view if x is not None]
+                if known != sorted(known):
+                    return f'{what}: UIDs out of order in the view {view}'
+        return None
+    err = apply(await c.send(b'a SELECT INBOX\r\n'), 'SELECT')
+    s.enabled = True
+    s.only = {f'w{i}' for i in range(nw)}
+    budget = r.randint(3, 7)
+    busy = set()
+    for step in range(80):
+        if err:
+            break
+        idle = [i for i in range(nw) if f'w{i}' not in s.parked and writers[i].idle() and not writers[i].task.done()]
+        for i in idle:
+            busy.discard(i)
+            writers[i].take()
+        parked = sorted(n for n in s.parked)
+        choices = (['feed'] if idle and budget > 0 else []) + ['release'] * (2 if parked else 0) + ['watch']
+        act = r.choice(choices)
+        if act == 'feed':
+            i = r.choice(idle)
+            x = r.random()
+            if x < 0.6:
+                m_ = msg()
+                line = b'APPEND INBOX {%d+}\r\n' % len(m_) + m_
+            elif x < 0.8:
+                line = b'COPY 1 INBOX'
+            else:
+                line = b'STORE 1:* +FLAGS.SILENT (\\Deleted)\r\nx EXPUNGE' if r.random() < 0.5 else b'NOOP'
+            writers[i].feed(b'x ' + line + b'\r\n')
+            busy.add(i)
+            budget -= 1
+            log.append(f'w{i}: {line[:24].decode("latin1")}')
+            await s.quiesce()
+        elif act == 'release':
+            n = r.choice(parked)
+            lab = await s.release(n)
+            log.append(f'{n} passes {lab}')
+        else:
+            q = r.choice([b'NOOP', b'NOOP', b'FETCH 1:* (UID)', b'FETCH %d:* (UID)' % max(1, len(view))])
+            log.append('c: ' + q.decode())
+            err = apply(await c.send(b'a ' + q + b'\r\n'), q.decode())
+            part.stat('publish-order:watch')
+        if not parked and not idle and not busy and budget <= 0:
+            break
+    s.enabled = False
+    await s.release_all()
+    await s.quiesce()
+    if not err:
+        err = apply(await c.send(b'a NOOP\r\n'), 'final NOOP') or apply(await c.send(b'a FETCH 1:* (UID)\r\n'), 'final FETCH 1:* (UID)')
+    part.case(key=f'publish-order:{seed}', nontrivial=len(log) > 6, sample=dict(case, log=log[:12]))
+    if err:
+        part.violation('monitor', f'dict, lock-boundary interleaving: {err}', case, signature='publish-order')
+    for x in writers + [c]:
+        await x.eof()
+
+
 def run(ctx):
     ctx.rep.rule = RULE
     ctx.rep.assumptions = ['whole commands are atomic on the dict backend under asyncio (no contended lock); finer interleavings are over-approximated by the System model',
@@ -173,11 +294,14 @@ def run(ctx):
 def replay(case):
     part = Part()
     case = case.get('case', case)
-    nsess, prog = case['nsess'], case['program']
-    ext, outs, final = asyncio.run(l3.run_real(nsess, prog))
-    for op, raw in zip(ext, outs):
-        print(op, '->', raw)
-    l3.judge(part, [(nsess, ext, outs, final)], 'C01')
+    if case.get('scenario') == 'publish-order':
+        asyncio.run(publish_order(part, case['seed']))
+    else:
+        nsess, prog = case['nsess'], case['program']
+        ext, outs, final = asyncio.run(l3.run_real(nsess, prog))
+        for op, raw in zip(ext, outs):
+            print(op, '->', raw)
+        l3.judge(part, [(nsess, ext, outs, final)], 'C01')
     res = part.result()
     for v in res['violations']:
         print(f"[{v['kind']}] {v['what']}")
